@@ -7,6 +7,7 @@ import NodisVerif.Model.Handler4
 import NodisVerif.Driver.GeoOps
 import NodisVerif.Driver.FragOps
 import NodisVerif.Driver.ProtoOps
+import NodisVerif.Driver.BlockProgOps
 import NodisVerif.Driver.LinkedListOps
 import NodisVerif.Driver.SlOps
 import NodisVerif.Driver.RespWriterOps
@@ -22,6 +23,7 @@ structure DState where
   cur  : String := ""
   proto : Proto.PState := {}
   block : Block.BState := []
+  bprog : Driver.BPReplay := {}                  -- the replay of the same events against the program model
   gate : Gate.GState := {}
   feeds : List (String × List FeedOp) := []      -- per watched instance: records not yet drained (oldest first)
   patterns : List Bytes := []                    -- patterns of the second (filtered) watcher
@@ -67,7 +69,15 @@ def step (d : DState) (line : String) : DState × String :=
   | "fmtfloat" :: _ | "parsefloat" :: _ => (d, Driver.floatOp toks)
   | "geo" :: rest => (d, Driver.geoOp rest)
   | "pev" :: rest => let (p, out) := Driver.protoOp d.proto rest; ({ d with proto := p }, out)
-  | "bev" :: rest => let (b, out) := Driver.blockOp d.block rest; ({ d with block := b }, out)
+  | "bev" :: rest =>
+    let (b, out) := Driver.blockOp d.block rest
+    -- the same event must also be the next event of the program model (Model/BlockProg.lean)
+    match out, Driver.parseBev rest with
+    | "ok", some e =>
+      let (bp, out') := Driver.bpProgEv d.bprog e (Driver.evWaiter e)
+      ({ d with block := b, bprog := bp }, out')
+    | _, _ => ({ d with block := b }, out)
+  | "bpp" :: rest => let (bp, out) := Driver.bpProgOp d.bprog rest; ({ d with bprog := bp }, out)
   | "gev" :: rest => let (g, out) := Driver.gateOp d.gate rest; ({ d with gate := g }, out)
   | ["pend"] => ({ d with proto := {}, gate := {} }, Driver.protoEnd d.proto)
   | "open" :: id :: backend :: _ =>
